@@ -141,6 +141,25 @@ pub fn show_search(spec: &SearchSpec, o: &SearchOut) -> String {
     s
 }
 
+/// a node value with interior mutability (changed in place through a shared handle) that serialises as its current value
+#[derive(Debug)]
+pub struct MVal(pub std::sync::atomic::AtomicI64);
+impl Clone for MVal {
+    fn clone(&self) -> Self {
+        MVal(std::sync::atomic::AtomicI64::new(self.0.load(std::sync::atomic::Ordering::SeqCst)))
+    }
+}
+impl serde::Serialize for MVal {
+    fn serialize<S: serde::Serializer>(&self, s: S) -> Result<S::Ok, S::Error> {
+        self.0.load(std::sync::atomic::Ordering::SeqCst).serialize(s)
+    }
+}
+impl<'de> serde::Deserialize<'de> for MVal {
+    fn deserialize<D: serde::Deserializer<'de>>(d: D) -> Result<Self, D::Error> {
+        Ok(MVal(std::sync::atomic::AtomicI64::new(i64::deserialize(d)?)))
+    }
+}
+
 /// a key whose `Display` is not injective (it prints the tag only) and whose `Hash` is coarse: two different keys
 /// may print alike and hash alike. Serialised as the pair (id, tag).
 #[derive(Clone, Debug, PartialEq, Eq, PartialOrd, Ord)]
@@ -1309,6 +1328,77 @@ macro_rules! ext_mod {
                                         }
                                     }
                                 }
+                            }
+                            "g.rtcell" => {
+                                // g.rtcell <slot> <seed>: node values with interior mutability: serialise, change values in place, serialise
+                                // again - the second document carries the values as they are then (judged by C12's statement alone)
+                                type GM = Graph<usize, MVal, u32>;
+                                use std::sync::atomic::Ordering::SeqCst;
+                                let sd = t[2].parse::<i64>().unwrap_or(1);
+                                let n = 2 + (sd % 3) as usize;
+                                let mut g = GM::new();
+                                let nodes: Vec<Node<usize, MVal, u32>> = (0..n).map(|i| Node::new(i, MVal(std::sync::atomic::AtomicI64::new(i as i64)))).collect();
+                                for nd in &nodes {
+                                    g.insert(nd.clone());
+                                }
+                                nodes[0].connect(&nodes[1], 3);
+                                if !ctx.quiet && ctx.oracles.iter().any(|o| o == "c12") {
+                                    for fmt in ["json", "cbor"] {
+                                        let ser = |g: &GM| -> Vec<u8> { if fmt == "json" { serde_json::to_vec(g).unwrap() } else { serde_cbor::to_vec(g).unwrap() } };
+                                        let _first = ser(&g);
+                                        for (i, nd) in nodes.iter().enumerate() {
+                                            nd.value().0.store(100 + sd + i as i64, SeqCst);
+                                        }
+                                        let second = ser(&g);
+                                        let back: Result<GM, String> = if fmt == "json" { serde_json::from_slice::<GM>(&second).map_err(|e| e.to_string()) } else { serde_cbor::from_slice::<GM>(&second).map_err(|e| e.to_string()) };
+                                        match back {
+                                            Err(m) => ctx.fail(case, li, "c12", format!("{fmt} round trip of a graph with mutable node values failed: {m}")),
+                                            Ok(g2) => {
+                                                for (i, _) in nodes.iter().enumerate() {
+                                                    let got = g2.get(&i).map(|x| x.value().0.load(SeqCst));
+                                                    if got != Some(100 + sd + i as i64) {
+                                                        ctx.fail(case, li, "c12", format!("{fmt}: node {i} had the value {} when the container was serialised, the round trip gives {:?} (the value was changed in place after an earlier serialisation)", 100 + sd + i as i64, got));
+                                                        break;
+                                                    }
+                                                }
+                                            }
+                                        }
+                                        for (i, nd) in nodes.iter().enumerate() {
+                                            nd.value().0.store(i as i64, SeqCst);
+                                        }
+                                    }
+                                }
+                                "robust".into()
+                            }
+                            "g.denest" => {
+                                // g.denest <slot> <seed>: node values that are themselves graphs of this flavour (legal: Clone + Deserialize
+                                // through a shared pointer); deserialising the outer document must return (C13: never hangs)
+                                #[derive(Clone)]
+                                struct Sub(std::sync::Arc<Graph<usize, i64, u32>>);
+                                impl<'de> serde::Deserialize<'de> for Sub {
+                                    fn deserialize<D: serde::Deserializer<'de>>(d: D) -> Result<Self, D::Error> {
+                                        Ok(Sub(std::sync::Arc::new(Graph::<usize, i64, u32>::deserialize(d)?)))
+                                    }
+                                }
+                                type GO = Graph<usize, Sub, u32>;
+                                let sd = t[2].parse::<u64>().unwrap_or(1);
+                                let inner = "[[[0,1],[1,2]],[[0,1,7]]]";
+                                let docs = [
+                                    format!("[[[0,{inner}],[1,{inner}]],[[0,1,{}]]]", sd % 5),
+                                    format!("[[[0,{inner}]],[[0,9,1]]]"),
+                                    format!("[[[0,[[[0,1]],[[0,5,1]]]]],[]]"),
+                                ];
+                                for (di, d) in docs.iter().enumerate() {
+                                    let v: serde_json::Value = serde_json::from_str(d).unwrap();
+                                    for fmt in ["json", "cbor"] {
+                                        let r: Result<GO, String> = if fmt == "json" { serde_json::from_str::<GO>(d).map_err(|e| e.to_string()) } else { serde_cbor::from_slice::<GO>(&serde_cbor::to_vec(&v).unwrap()).map_err(|e| e.to_string()) };
+                                        let want_ok = di == 0;
+                                        if !ctx.quiet && ctx.oracles.iter().any(|o| o == "c13") && r.is_ok() != want_ok {
+                                            ctx.fail(case, li, "c13", format!("{fmt} document of a graph whose node values are graphs: expected {}, got {}", if want_ok { "Ok" } else { "Err (an undeclared key)" }, if r.is_ok() { "Ok".to_string() } else { r.err().unwrap() }));
+                                        }
+                                    }
+                                }
+                                "robust".into()
                             }
                             "g.rtlossy" => {
                                 // g.rtlossy <slot> <seed>: a small closed graph over keys whose Display text and hash collide, serialised
